@@ -40,20 +40,6 @@ func wireUDP(addr string) (*net.UDPConn, error) {
 }
 
 func init() {
-	vReg("wire start", func(a []string) string {
-		cfg, err := loadConfigFromReader(strings.NewReader(unhx(a[0])))
-		if err != nil {
-			return "config-error " + strings.ReplaceAll(err.Error(), " ", "_")
-		}
-		for _, proxy := range cfg.Proxies {
-			err = startProxy(proxy, createPreConfigRoute(proxy), createPreConfigHostResolver(cfg.Hosts, proxy))
-			if err != nil {
-				return "start-error " + strings.ReplaceAll(err.Error(), " ", "_")
-			}
-		}
-		time.Sleep(20 * time.Millisecond)
-		return "ok"
-	})
 	vReg("wire bind", func(a []string) string {
 		if _, err := wireUDP(unhx(a[0])); err != nil {
 			return "bind-error " + strings.ReplaceAll(err.Error(), " ", "_")
